@@ -13,7 +13,7 @@
 EXTENDS SchemePush, IOUtils
 Rec == ndJsonDeserialize(IOEnv.TRACE)
 Kinds == {"announce", "served", "end"}
-InitSt(e) == [cur |-> "D", servers |-> IF "consts" \in DOMAIN e THEN e.consts.servers ELSE <<>>, n |-> 0]
+InitSt(e) == [cur |-> IF "consts" \in DOMAIN e THEN e.consts.client ELSE "D", servers |-> IF "consts" \in DOMAIN e THEN e.consts.servers ELSE <<>>, n |-> 0]
 Ok(s)      == [ok |-> TRUE, st |-> s, why |-> "", dev |-> "", site |-> ""]
 No(s, why) == [ok |-> FALSE, st |-> s, why |-> why, dev |-> "", site |-> ""]
 Apply(s, e) ==
